@@ -83,12 +83,16 @@ def MATCH(
             )
 
     for i, val in enumerate(lookup_array):
+        if match_type == 1:
+            # The last position whose value does not exceed the lookup
+            # value: equal neighbours are passed over, not stopped at.
+            if val > lookup_value:
+                return i or xlerrors.NaExcelError(
+                    "No lesser value found."
+                )
+            continue
         if val == lookup_value:
             return i + 1
-        if match_type == 1 and val > lookup_value:
-            return i or xlerrors.NaExcelError(
-                "No lesser value found."
-            )
         if match_type == -1 and val < lookup_value:
             return i or xlerrors.NaExcelError(
                 "No greater value found."
